@@ -172,6 +172,13 @@ fn check_hsl(acc: &mut Acc, base: u64, px: &[[f32; 3]]) {
     acc.worst("HSL->RGB distance from the textbook inverse (reported only)", wref, || json!(null));
 }
 
+fn pxs_json(it: &[[f32; 3]]) -> Value {
+    json!(it.iter().map(|p| px3j(*p)).collect::<Vec<_>>())
+}
+fn pxs_from(v: &Value) -> Vec<[f32; 3]> {
+    v.as_array().unwrap().iter().map(px3_from).collect()
+}
+
 pub fn run(tier: Tier) -> Report {
     let mut rep = Report::new("C17");
     let n: u64 = tier.pick(400, 2048);
@@ -180,6 +187,7 @@ pub fn run(tier: Tier) -> Report {
     let acc = par_chunks_varied(total, 1 << 15, |acc, lo, hi| {
         let px: Vec<[f32; 3]> = (lo..hi).map(|i| [(i / (n * n)) as f32 / d, ((i / n) % n) as f32 / d, (i % n) as f32 / d]).collect();
         check_rgb(acc, lo, &px);
+        crate::img::refine_violations(acc, lo, &px, 1, &|a, it| check_rgb(a, 0, it), &pxs_json);
         if lo == 0 {
             let p = px[px.len() / 2];
             let (h, s, l, _) = hexcone_hsl([p[0] as f64, p[1] as f64, p[2] as f64]);
@@ -243,6 +251,7 @@ pub fn run(tier: Tier) -> Report {
     let acc = par_chunks_varied(nh * ns * ns, 1 << 14, |acc, lo, hi| {
         let px: Vec<[f32; 3]> = (lo..hi).map(|i| [hs[(i / (ns * ns)) as usize], sl[((i / ns) % ns) as usize], sl[(i % ns) as usize]]).collect();
         check_hsl(acc, total + 100_000 + lo, &px);
+        crate::img::refine_violations(acc, total + 100_000 + lo, &px, 1, &|a, it| check_hsl(a, 0, it), &pxs_json);
     });
     rep.acc.merge(acc);
     rep.bound = format!(
@@ -262,9 +271,11 @@ pub fn run(tier: Tier) -> Report {
 pub fn replay(case: &Value) -> (bool, String) {
     let mut acc = Acc::default();
     if case["kind"] == "c17" {
-        check_rgb(&mut acc, 0, &[px3_from(&case["rgb"])]);
+        let (items, shape) = crate::img::replay_items(case, vec![px3_from(&case["rgb"])], &pxs_from);
+        crate::img::with_shape(shape, || check_rgb(&mut acc, 0, &items));
     } else {
-        check_hsl(&mut acc, 0, &[px3_from(&case["hsl"])]);
+        let (items, shape) = crate::img::replay_items(case, vec![px3_from(&case["hsl"])], &pxs_from);
+        crate::img::with_shape(shape, || check_hsl(&mut acc, 0, &items));
     }
     match acc.viols.values().next() {
         Some(v) => (true, format!("{} :: {}", v.key, v.detail)),
